@@ -60,8 +60,3 @@ int clock_gettime(clockid_t c, struct timespec *ts)
     return 0;
 }
 /* glob matching is libc's: uninterpreted */
-int fnmatch(const char *pattern, const char *string, int flags)
-{
-    (void)pattern; (void)string; (void)flags;
-    return nondet_int();
-}
